@@ -19,9 +19,12 @@ use minidump_processor::{
 use minidump_unwind::{
     CallStack, CallStackInfo, FrameTrust, InlineFrame, StackFrame, SymbolStats, SystemInfo,
 };
-use scroll::Pread;
+use scroll::ctx::SizeWith;
+use scroll::{Pread, Pwrite};
 use serde_json::Value;
+use std::cell::RefCell;
 use std::collections::{BTreeMap, BTreeSet, HashMap, HashSet};
+use std::sync::OnceLock;
 
 pub struct Json;
 
@@ -290,12 +293,22 @@ fn mk_frame(x: &Sx) -> Option<StackFrame> {
 
 fn mk_thread(x: &Sx) -> Option<CallStack> {
     let l = x.as_list()?;
-    if l.len() != 4 {
+    if l.len() != 4 && l.len() != 5 {
         return None;
     }
+    // optional 5th item: how the stack walk ended (not printed by print_json, but a `print_json`
+    // that looked at it — e.g. skipping the dump-writing thread when indexing — must be noticed)
+    let info = match l.get(4).map(|x| x.atom()) {
+        None | Some(Some("ok")) => CallStackInfo::Ok,
+        Some(Some("missing_context")) => CallStackInfo::MissingContext,
+        Some(Some("missing_memory")) => CallStackInfo::MissingMemory,
+        Some(Some("unsupported_cpu")) => CallStackInfo::UnsupportedCpu,
+        Some(Some("dump_thread_skipped")) => CallStackInfo::DumpThreadSkipped,
+        _ => return None,
+    };
     Some(CallStack {
         frames: l[0].list(mk_frame)?,
-        info: CallStackInfo::Ok,
+        info,
         thread_id: l[1].nat()? as u32,
         thread_name: l[2].opt(|x| x.string())?,
         last_error_value: l[3].opt(mk_reason)?,
@@ -485,7 +498,7 @@ fn mk_incons(t: &str) -> Option<CrashInconsistency> {
 
 fn mk_exc(x: &Sx) -> Option<ExceptionInfo> {
     let l = x.as_list()?;
-    if l.len() != 7 {
+    if l.len() != 7 && l.len() != 8 {
         return None;
     }
     let adjusted_address = l[2].opt(|a| {
@@ -515,11 +528,7 @@ fn mk_exc(x: &Sx) -> Option<ExceptionInfo> {
             confidence: f[7].opt(|x| x.nat())?.map(|bits| f32::from_bits(bits as u32)),
         })
     })?;
-    // l[4] (harvest selector) must be `-`: the op_analysis types are private to the crate
-    if !l[4].is_none() {
-        return None;
-    }
-    Some(ExceptionInfo {
+    let mut info = ExceptionInfo {
         reason: mk_reason(&l[0])?,
         address: Address(l[1].nat()?),
         adjusted_address,
@@ -529,7 +538,55 @@ fn mk_exc(x: &Sx) -> Option<ExceptionInfo> {
         instruction_pointer_update: None,
         possible_bit_flips,
         inconsistencies: l[6].list(|x| mk_incons(x.atom()?))?,
-    })
+    };
+    // l[4]: `-` | ( ( n<addr> n<size>|- t|f read|write|readwrite|underivable ) … ): the types of
+    // `memory_access_list` live in a private module and cannot be named, but their fields are
+    // public: the list is a clone of one the processor produced (see `templates`), its elements
+    // are copies whose public fields are overwritten
+    if !l[4].is_none() {
+        let t = templates()?;
+        let mut list = t.read.memory_access_list.clone();
+        let lm = list.as_mut()?;
+        let proto = *lm.accesses.first()?;
+        lm.accesses.clear();
+        for a in l[4].as_list()? {
+            let a = a.as_list()?;
+            if a.len() != 4 {
+                return None;
+            }
+            let mut m = proto;
+            m.address_info.address = a[0].nat()?;
+            m.address_info.is_likely_null_pointer_dereference = m.address_info.address == 0;
+            m.address_info.is_likely_guard_page = a[2].boolean()?;
+            m.size = a[1].opt(|x| x.nat())?.map(|v| v as u8);
+            let src = match a[3].atom()? {
+                "read" => &t.read,
+                "write" => &t.write,
+                "readwrite" => &t.readwrite,
+                "underivable" => &t.underivable,
+                _ => return None,
+            };
+            m.access_type = src.memory_access_list.as_ref()?.accesses.first()?.access_type;
+            lm.accesses.push(m);
+        }
+        info.memory_access_list = list;
+    }
+    // l[7] (optional): `-` | noupdate | ( update n<addr> ): harvested from the processor
+    // (`call rax` with rax = addr); `is_likely_guard_page` is never set for it by any code
+    if let Some(u) = l.get(7) {
+        if !u.is_none() {
+            if u.atom() == Some("noupdate") {
+                info.instruction_pointer_update = templates()?.read.instruction_pointer_update;
+            } else {
+                let ul = u.as_list()?;
+                if ul.len() != 2 || ul[0].atom()? != "update" {
+                    return None;
+                }
+                info.instruction_pointer_update = ip_update_template(ul[1].nat()?)?.instruction_pointer_update;
+            }
+        }
+    }
+    Some(info)
 }
 
 fn build(items: &[Sx]) -> Option<ProcessState> {
@@ -737,7 +794,8 @@ fn alpha(ps: &ProcessState) -> Vec<Sx> {
                         n(a.address_info.address),
                         on(a.size.map(|v| v as u64)),
                         b(a.address_info.is_likely_guard_page),
-                        tag(&a.access_type.to_string().to_lowercase()),
+                        // Debug (derived), not the Display impl print_json itself uses
+                        tag(&format!("{:?}", a.access_type).to_lowercase()),
                     ])
                 })
                 .collect())
@@ -960,6 +1018,62 @@ fn is_u32(v: &Value) -> bool {
     v.as_u64().map_or(false, |x| x <= u32::MAX as u64)
 }
 
+// the enumerations json-schema.md lists, verbatim; `*_UNDOC` = values the code emits today that
+// the document does not list (tolerated under "do not assume enums are exhaustive", reported in
+// the distribution as `undocumented-enum:…`)
+const ACCESS_DOC: [&str; 3] = ["read", "write", "readwrite"];
+const INCONS_DOC: [&str; 5] = [
+    "int_div_by_zero_not_possible",
+    "priv_instruction_crash_without_priv_instruction",
+    "non_canonical_address_falsely_reported",
+    "access_violation_when_access_allowed",
+    "crashing_access_not_found_in_memory_accesses",
+];
+const ADJUSTED_DOC: [&str; 2] = ["non-canonical", "null-pointer"];
+const TRUST_DOC: [&str; 4] = ["context", "cfi", "frame_pointer", "scan"];
+const TRUST_UNDOC: [&str; 3] = ["cfi_scan", "prewalked", "non"];
+const CPU_DOC: [&str; 8] = ["x86", "amd64", "ppc", "ppc64", "sparc", "arm", "arm64", "unknown"];
+const CPU_UNDOC: [&str; 2] = ["mips", "mips64"];
+const OS_DOC: [&str; 8] = ["Windows NT", "Mac OS X", "iOS", "Linux", "Solaris", "Android", "PS3", "NaCl"];
+
+/// the engine's own table (not `FrameTrust::as_str`, which print_json uses)
+fn trust_doc(t: &FrameTrust) -> &'static str {
+    match t {
+        FrameTrust::Context => TRUST_DOC[0],
+        FrameTrust::CallFrameInfo => TRUST_DOC[1],
+        FrameTrust::FramePointer => TRUST_DOC[2],
+        FrameTrust::Scan => TRUST_DOC[3],
+        FrameTrust::CfiScan => TRUST_UNDOC[0],
+        FrameTrust::PreWalked => TRUST_UNDOC[1],
+        FrameTrust::None => TRUST_UNDOC[2],
+    }
+}
+
+fn incons_doc(c: &CrashInconsistency) -> &'static str {
+    match c {
+        CrashInconsistency::IntDivByZeroNotPossible => INCONS_DOC[0],
+        CrashInconsistency::PrivInstructionCrashWithoutPrivInstruction => INCONS_DOC[1],
+        CrashInconsistency::NonCanonicalAddressFalselyReported => INCONS_DOC[2],
+        CrashInconsistency::AccessViolationWhenAccessAllowed => INCONS_DOC[3],
+        CrashInconsistency::CrashingAccessNotFoundInMemoryAccesses => INCONS_DOC[4],
+    }
+}
+
+/// `v` (if present and not null) must be one of the documented strings (or a tolerated one)
+fn enum_check(or: &mut Oracle, v: &Value, doc: &[&str], undoc: &[&str], name: &str, path: &str) {
+    if v.is_null() {
+        return;
+    }
+    match v.as_str() {
+        Some(s) if doc.contains(&s) || undoc.contains(&s) => {}
+        _ => or.fail(
+            &format!("schema-enum-{name}"),
+            format!("{path} = {v} is not one of the values json-schema.md lists: {doc:?}{}",
+                if undoc.is_empty() { String::new() } else { format!(" (nor one of the known undocumented ones {undoc:?})") }),
+        ),
+    }
+}
+
 struct Oracle {
     fails: Vec<(String, String)>,
 }
@@ -1032,6 +1146,10 @@ fn check_thread(or: &mut Oracle, tj: &Value, t: &CallStack, w: usize, path: &str
             }
             (None, None) => {}
             _ => or.fail("function-offset", format!("{p}.function_offset = {}", fj["function_offset"])),
+        }
+        enum_check(or, &fj["trust"], &TRUST_DOC, &TRUST_UNDOC, "trust", &format!("{p}.trust"));
+        if fj["trust"].as_str() != Some(trust_doc(&f.trust)) {
+            or.fail("trust-mirror", format!("{p}.trust = {} for a frame recovered by {:?}", fj["trust"], f.trust));
         }
         if fj["missing_symbols"].as_bool() != Some(fj["function"].is_null()) {
             or.fail("missing-symbols", format!("{p}.missing_symbols = {} function = {}", fj["missing_symbols"], fj["function"]));
@@ -1124,6 +1242,13 @@ fn oracle(ps: &ProcessState, compact: &[u8], pretty: &[u8]) -> (Vec<(String, Str
                     if want != got {
                         or.fail("registers", format!("registers {got:?} but the valid general purpose registers are {want:?}"));
                     }
+                    // each value is the register's content, padded to the register width of the context
+                    for r in &want {
+                        let val = ctx.get_register_always(r);
+                        if hex_ok(&m[*r], ctx.register_size() * 2) != Some(val) {
+                            or.fail("registers", format!("register {r} = {} but the context holds {val:#x} ({} bytes wide)", m[*r], ctx.register_size()));
+                        }
+                    }
                 }
                 _ => or.fail("registers", "crashing_thread.frames[0].registers is not an object".into()),
             }
@@ -1170,9 +1295,101 @@ fn oracle(ps: &ProcessState, compact: &[u8], pretty: &[u8]) -> (Vec<(String, Str
     or.addr(&ci["adjusted_address"]["address"], w, "crash_info.adjusted_address.address");
     or.addr(&ci["adjusted_address"]["offset"], w, "crash_info.adjusted_address.offset");
     or.addr(&ci["instruction_pointer_update"]["address"], w, "crash_info.instruction_pointer_update.address");
-    for (i, a) in ci["memory_accesses"].as_array().cloned().unwrap_or_default().iter().enumerate() {
-        or.addr(&a["address"], w, &format!("crash_info.memory_accesses[{i}].address"));
+    if ci["instruction_pointer_update"].get("is_likely_guard_page").map_or(false, |v| v.as_bool() != Some(true)) {
+        or.fail("schema-guard-page-flag", format!("crash_info.instruction_pointer_update.is_likely_guard_page = {}", ci["instruction_pointer_update"]["is_likely_guard_page"]));
     }
+    let accesses = ci["memory_accesses"].as_array().cloned().unwrap_or_default();
+    for (i, a) in accesses.iter().enumerate() {
+        let p = format!("crash_info.memory_accesses[{i}]");
+        or.addr(&a["address"], w, &format!("{p}.address"));
+        or.u32f(&a["size"], &format!("{p}.size"));
+        enum_check(&mut or, &a["access_type"], &ACCESS_DOC, &[], "access_type", &format!("{p}.access_type"));
+        if a.get("is_likely_guard_page").map_or(false, |v| v.as_bool() != Some(true)) {
+            or.fail("schema-guard-page-flag", format!("{p}.is_likely_guard_page = {}: json-schema.md says the member may only be present when the value is true", a["is_likely_guard_page"]));
+        }
+    }
+    // memory_accesses mirrors the state's list (address, size, guard flag, kind of access; the kind
+    // is read through the derived Debug, not through the Display impl print_json uses)
+    let exc = ps.exception_info.as_ref();
+    match exc.and_then(|e| e.memory_access_list.as_ref()) {
+        None => {
+            if !ci["memory_accesses"].is_null() {
+                or.fail("memory-accesses-mirror", format!("memory_accesses = {} without an access list", ci["memory_accesses"]));
+            }
+        }
+        Some(l) => {
+            let real: Vec<_> = l.iter().collect();
+            if !ci["memory_accesses"].is_array() || accesses.len() != real.len() {
+                or.fail("memory-accesses-mirror", format!("memory_accesses has {} entries, the access list {}", accesses.len(), real.len()));
+            }
+            for (i, (aj, a)) in accesses.iter().zip(real.iter()).enumerate() {
+                let kind = format!("{:?}", a.access_type);
+                let want_type = match kind.as_str() {
+                    "Read" => Value::from("read"),
+                    "Write" => Value::from("write"),
+                    "ReadWrite" => Value::from("readwrite"),
+                    _ => Value::Null,
+                };
+                let got_type = aj.get("access_type").cloned().unwrap_or(Value::Null);
+                if hex_ok(&aj["address"], w) != Some(a.address_info.address)
+                    || aj["size"].as_u64() != a.size.map(|v| v as u64)
+                    || aj.get("is_likely_guard_page").and_then(|v| v.as_bool()).unwrap_or(false) != a.address_info.is_likely_guard_page
+                    || got_type != want_type
+                {
+                    or.fail("memory-accesses-mirror", format!("crash_info.memory_accesses[{i}] = {aj} for {a:?}"));
+                }
+            }
+        }
+    }
+    let incs = ci["crash_inconsistencies"].as_array().cloned().unwrap_or_default();
+    for (i, v) in incs.iter().enumerate() {
+        enum_check(&mut or, v, &INCONS_DOC, &[], "crash_inconsistencies", &format!("crash_info.crash_inconsistencies[{i}]"));
+    }
+    if let Some(e) = exc {
+        let want: Vec<&str> = e.inconsistencies.iter().map(incons_doc).collect();
+        let got: Vec<&str> = incs.iter().filter_map(|v| v.as_str()).collect();
+        if want != got {
+            or.fail("inconsistencies-mirror", format!("crash_inconsistencies = {got:?} for {:?}", e.inconsistencies));
+        }
+        let adj = &ci["adjusted_address"];
+        let ok = match &e.adjusted_address {
+            None => adj.is_null(),
+            Some(AdjustedAddress::NonCanonical(a)) => {
+                adj["kind"] == "non-canonical" && hex_ok(&adj["address"], w) == Some(a.0) && adj.get("offset").is_none()
+            }
+            Some(AdjustedAddress::NullPointerWithOffset(a)) => {
+                adj["kind"] == "null-pointer" && hex_ok(&adj["offset"], w) == Some(a.0) && adj.get("address").is_none()
+            }
+        };
+        if !ok {
+            or.fail("adjusted-address-mirror", format!("adjusted_address = {adj} for {:?}", e.adjusted_address));
+        }
+        if hex_ok(&ci["address"], w) != Some(e.address.0) {
+            or.fail("crash-address-mirror", format!("crash_info.address = {} for {:#x}", ci["address"], e.address.0));
+        }
+        let flips = ci["possible_bit_flips"].as_array().cloned().unwrap_or_default();
+        if flips.len() != e.possible_bit_flips.len() || (e.possible_bit_flips.is_empty() != ci["possible_bit_flips"].is_null()) {
+            or.fail("bit-flips-mirror", format!("possible_bit_flips has {} entries, the state {}", flips.len(), e.possible_bit_flips.len()));
+        }
+        for (i, (fj, f)) in flips.iter().zip(e.possible_bit_flips.iter()).enumerate() {
+            let d = &fj["details"];
+            if hex_ok(&fj["address"], w) != Some(f.address.0)
+                || d["was_non_canonical"].as_bool() != Some(f.details.was_non_canonical)
+                || d["is_null"].as_bool() != Some(f.details.is_null)
+                || d["was_low"].as_bool() != Some(f.details.was_low)
+                || d["poison_registers"].as_bool() != Some(f.details.poison_registers)
+                || d["nearby_registers"].as_u64() != Some(f.details.nearby_registers as u64)
+                || fj["source_register"].as_str() != f.source_register
+                || !(fj["confidence"].is_null() || fj["confidence"].is_number())
+            {
+                or.fail("bit-flips-mirror", format!("crash_info.possible_bit_flips[{i}] = {fj} for {f:?}"));
+            }
+        }
+    }
+    if !ci["adjusted_address"].is_null() {
+        enum_check(&mut or, &ci["adjusted_address"]["kind"], &ADJUSTED_DOC, &[], "adjusted_address.kind", "crash_info.adjusted_address.kind");
+    }
+    enum_check(&mut or, &j["system_info"]["cpu_arch"], &CPU_DOC, &CPU_UNDOC, "cpu_arch", "system_info.cpu_arch");
     for (i, a) in ci["possible_bit_flips"].as_array().cloned().unwrap_or_default().iter().enumerate() {
         or.addr(&a["address"], w, &format!("crash_info.possible_bit_flips[{i}].address"));
     }
@@ -1197,8 +1414,7 @@ fn oracle(ps: &ProcessState, compact: &[u8], pretty: &[u8]) -> (Vec<(String, Str
     }
     // --- the three places where the code leaves the documented schema (known findings)
     if let Some(os) = j["system_info"]["os"].as_str() {
-        let listed = ["Windows NT", "Mac OS X", "iOS", "Linux", "Solaris", "Android", "PS3", "NaCl"];
-        if !listed.contains(&os) && hex_ok(&j["system_info"]["os"], 1).is_none() {
+        if !OS_DOC.contains(&os) && hex_ok(&j["system_info"]["os"], 1).is_none() {
             or.fail("schema-os-unknown-not-hexstring", format!("system_info.os = {os:?} is neither a listed name nor a <hexstring>"));
         }
     }
@@ -1235,6 +1451,32 @@ fn expected_conforms(j: &Value) -> String {
     "11".into()
 }
 
+/// `cpu_arch=…` then `trust=…` (threads in order, then the crashing-thread copy; first occurrences)
+fn undocumented_enums(j: &Value) -> String {
+    let mut out: Vec<String> = Vec::new();
+    if let Some(a) = j["system_info"]["cpu_arch"].as_str() {
+        if !CPU_DOC.contains(&a) {
+            out.push(format!("cpu_arch={a}"));
+        }
+    }
+    let mut seen: Vec<String> = Vec::new();
+    let mut threads: Vec<&Value> = j["threads"].as_array().map(|a| a.iter().collect()).unwrap_or_default();
+    if let Some(c) = j.get("crashing_thread") {
+        threads.push(c);
+    }
+    for t in threads {
+        for f in t["frames"].as_array().map(|a| a.iter().collect::<Vec<_>>()).unwrap_or_default() {
+            if let Some(tr) = f["trust"].as_str() {
+                if !TRUST_DOC.contains(&tr) && !seen.iter().any(|x| x == tr) {
+                    seen.push(tr.to_string());
+                }
+            }
+        }
+    }
+    out.extend(seen.into_iter().map(|t| format!("trust={t}")));
+    out.join(",")
+}
+
 /// states on which `Conforms` is predictable from the three detectors above: the generator's
 /// deliberate departures from well-formedness (empty offset sets, counts ≥ 2^32) are excluded
 fn conforms_predictable(ps: &ProcessState) -> bool {
@@ -1249,6 +1491,23 @@ struct Run {
     ps: ProcessState,
     compact: Result<Vec<u8>, String>,
     pretty: Result<Vec<u8>, String>,
+}
+
+thread_local! {
+    static RT: tokio::runtime::Runtime =
+        tokio::runtime::Builder::new_current_thread().enable_all().build().expect("tokio runtime");
+    /// `call rax` processed with rax = key (what `instruction_pointer_update` needs)
+    static IPCACHE: RefCell<HashMap<u64, Option<ExceptionInfo>>> = RefCell::new(HashMap::new());
+}
+
+fn process_bytes(bytes: Vec<u8>) -> Option<ProcessState> {
+    let dump = Minidump::read(bytes).ok()?;
+    RT.with(|rt| {
+        rt.block_on(async {
+            let provider = minidump_unwind::Symbolizer::new(minidump_unwind::simple_symbol_supplier(vec![]));
+            minidump_processor::process_minidump(&dump, &provider).await.ok()
+        })
+    })
 }
 
 /// `json proc b<hex text>`: a synthetic dump carrying a MozSoftErrors stream with that text goes
@@ -1269,23 +1528,324 @@ fn build_proc(items: &[Sx]) -> Option<ProcessState> {
         .add(context)
         .add_memory(stack)
         .set_soft_errors(&text);
-    let dump = Minidump::read(dump.finish()?).ok()?;
-    let rt = tokio::runtime::Builder::new_current_thread().enable_all().build().ok()?;
-    rt.block_on(async {
-        let provider = minidump_unwind::Symbolizer::new(minidump_unwind::simple_symbol_supplier(vec![]));
-        minidump_processor::process_minidump(&dump, &provider).await.ok()
-    })
+    process_bytes(dump.finish()?)
+}
+
+/// directly constructed states are written `json st <17 items>`: the constant second field keeps
+/// the framework's per-shape cap on kept failures meaningful (the bare legacy form, whose second
+/// field is the pid, is still accepted — old corpus lines and replays)
+fn strip_shape(mut items: Vec<Sx>) -> Vec<Sx> {
+    if matches!(items.first(), Some(A(a)) if a == "st") {
+        items.remove(0);
+    }
+    items
 }
 
 fn is_proc_case(items: &[Sx]) -> bool {
     matches!(items.first(), Some(A(a)) if a == "proc")
 }
+fn is_procx_case(items: &[Sx]) -> bool {
+    matches!(items.first(), Some(A(a)) if a == "procx")
+}
+
+// ------------------------------------------------ processor path with a crashing instruction
+
+/// what a `json procx …` case describes: an amd64 (or other) crash dump whose exception context
+/// points at code bytes held in the dump's memory
+#[derive(Default)]
+struct DumpSpec {
+    os: String,
+    /// x86 | amd64 | arm64 (context kinds minidump-synth can write)
+    cpu: String,
+    /// exception code, flags, number of parameters, information[0], information[1], address
+    exc: [u64; 6],
+    regs: Vec<(String, u64)>,
+    code: Vec<u8>,
+    /// memory-info regions: base, size, protection
+    regions: Vec<(u64, u64, u32)>,
+    /// extra memory (the target of `call [mem]`)
+    data: Option<(u64, Vec<u8>)>,
+    lsb: Option<Vec<u8>>,
+    limits: Option<Vec<u8>>,
+    maps: Option<Vec<u8>>,
+    thread_name: Option<String>,
+    modules: Vec<(u64, u64, String)>,
+    unloaded: Vec<(u64, u64, String)>,
+    stack: Vec<u8>,
+    /// other threads before / after the crashing one (ids 100.., own context and stack), and
+    /// which position of the thread list (if any) Breakpad names as the dump-writing thread
+    before: u64,
+    after: u64,
+    dump_thread: Option<u64>,
+}
+
+fn reg_of(regs: &[(String, u64)], name: &str) -> u64 {
+    regs.iter().rev().find(|(k, _)| k == name).map_or(0, |(_, v)| *v)
+}
+
+fn synth_dump(c: &DumpSpec) -> Option<Vec<u8>> {
+    use minidump_synth as synth;
+    use synth::DumpSection;
+    use test_assembler::{Endian, Section};
+    let le = scroll::LE;
+    let g = |k: &str| reg_of(&c.regs, k);
+    let (context, ip, sp, arch) = match c.cpu.as_str() {
+        "amd64" => {
+            let mut x = md::CONTEXT_AMD64::default();
+            x.context_flags = 0x10001f;
+            x.rax = g("rax");
+            x.rdx = g("rdx");
+            x.rcx = g("rcx");
+            x.rbx = g("rbx");
+            x.rsi = g("rsi");
+            x.rdi = g("rdi");
+            x.rbp = g("rbp");
+            x.rsp = g("rsp");
+            x.r8 = g("r8");
+            x.r9 = g("r9");
+            x.r10 = g("r10");
+            x.r11 = g("r11");
+            x.r12 = g("r12");
+            x.r13 = g("r13");
+            x.r14 = g("r14");
+            x.r15 = g("r15");
+            x.rip = g("rip");
+            let mut bytes = vec![0u8; md::CONTEXT_AMD64::size_with(&le)];
+            bytes.pwrite_with(x, 0, le).ok()?;
+            (
+                Section::with_endian(Endian::Little).append_bytes(&bytes),
+                g("rip"),
+                g("rsp"),
+                md::ProcessorArchitecture::PROCESSOR_ARCHITECTURE_AMD64 as u16,
+            )
+        }
+        "x86" => (
+            synth::x86_context(Endian::Little, g("rip") as u32, g("rsp") as u32),
+            g("rip") as u32 as u64,
+            g("rsp") as u32 as u64,
+            md::ProcessorArchitecture::PROCESSOR_ARCHITECTURE_INTEL as u16,
+        ),
+        "arm64" => (
+            synth::arm64_context(Endian::Little, g("rip"), g("rsp")),
+            g("rip"),
+            g("rsp"),
+            md::ProcessorArchitecture::PROCESSOR_ARCHITECTURE_ARM64 as u16,
+        ),
+        _ => return None,
+    };
+    let platform = match c.os.as_str() {
+        "win" => md::PlatformId::VER_PLATFORM_WIN32_NT as u32,
+        "linux" => md::PlatformId::Linux as u32,
+        "mac" => md::PlatformId::MacOs as u32,
+        "android" => md::PlatformId::Android as u32,
+        _ => return None,
+    };
+    let context_label = context.file_offset();
+    let context_size = context.file_size();
+    let stack = synth::Memory::with_section(Section::with_endian(Endian::Little).append_bytes(&c.stack), sp);
+    let thread = synth::Thread::new(Endian::Little, 1, &stack, &context);
+    // the context goes first so that its file offset is known before the exception record cites it
+    let mut dump = synth::SynthMinidump::with_endian(Endian::Little).add(context);
+    let mut ex = synth::Exception::new(Endian::Little);
+    ex.thread_id = 1;
+    ex.exception_record.exception_code = c.exc[0] as u32;
+    ex.exception_record.exception_flags = c.exc[1] as u32;
+    ex.exception_record.number_parameters = (c.exc[2] as u32).min(15);
+    ex.exception_record.exception_information[0] = c.exc[3];
+    ex.exception_record.exception_information[1] = c.exc[4];
+    ex.exception_record.exception_address = c.exc[5];
+    ex.thread_context = (context_size.value()? as u32, context_label.value()? as u32);
+    let other_ctx = synth::amd64_context(Endian::Little, 0x6000_0040, 0x7100_0008);
+    let mut ids: Vec<u32> = Vec::new();
+    let mut others = Vec::new();
+    for k in 0..(c.before + c.after).min(8) {
+        let st = synth::Memory::with_section(Section::with_endian(Endian::Little).append_repeated(0, 16), 0x7100_0000 + k * 0x1000);
+        others.push((synth::Thread::new(Endian::Little, 100 + k as u32, &st, &other_ctx), st));
+    }
+    let mut others = others.into_iter();
+    for k in 0..c.before.min(8) {
+        if let Some((t, st)) = others.next() {
+            dump = dump.add_thread(t).add_memory(st);
+            ids.push(100 + k as u32);
+        }
+    }
+    dump = dump.add_thread(thread);
+    ids.push(1);
+    for (k, (t, st)) in others.enumerate() {
+        dump = dump.add_thread(t).add_memory(st);
+        ids.push(100 + c.before.min(8) as u32 + k as u32);
+    }
+    if ids.len() > 1 {
+        dump = dump.add(other_ctx);
+    }
+    if let Some(tid) = c.dump_thread.and_then(|k| ids.get(k as usize)) {
+        // MINIDUMP_BREAKPAD_INFO: validity (dump thread | requesting thread), dump thread, requesting thread
+        dump = dump.add_stream(synth::SimpleStream {
+            stream_type: md::MINIDUMP_STREAM_TYPE::BreakpadInfoStream as u32,
+            section: Section::with_endian(Endian::Little).D32(3).D32(*tid).D32(1),
+        });
+    }
+    dump = dump
+        .add_exception(ex)
+        .add_system_info(synth::SystemInfo::new(Endian::Little).set_processor_architecture(arch).set_platform_id(platform));
+    if !c.code.is_empty() {
+        dump = dump.add_memory(synth::Memory::with_section(Section::with_endian(Endian::Little).append_bytes(&c.code), ip));
+    }
+    // (always cited by the thread entry, so always present — possibly empty)
+    dump = dump.add_memory(stack);
+    if let Some((addr, bytes)) = &c.data {
+        dump = dump.add_memory(synth::Memory::with_section(Section::with_endian(Endian::Little).append_bytes(bytes), *addr));
+    }
+    for (lo, size, prot) in &c.regions {
+        dump = dump.add_memory_info(synth::MemoryInfo::new(Endian::Little, *lo, *lo, 0, *size, 0x1000, *prot, 0));
+    }
+    if let Some(t) = &c.lsb {
+        dump = dump.set_linux_lsb_release(t);
+    }
+    if let Some(t) = &c.limits {
+        dump = dump.set_linux_proc_limits(t);
+    }
+    if let Some(t) = &c.maps {
+        dump = dump.set_linux_maps(t);
+    }
+    if let Some(nm) = &c.thread_name {
+        let name = synth::DumpString::new(nm, Endian::Little);
+        dump = dump.add_thread_name(synth::ThreadName::new(Endian::Little, 1, Some(&name))).add(name);
+    }
+    for (base, size, nm) in &c.modules {
+        let name = synth::DumpString::new(nm, Endian::Little);
+        dump = dump.add_module(synth::Module::new(Endian::Little, *base, *size as u32, &name, 0, 0, None)).add(name);
+    }
+    for (base, size, nm) in &c.unloaded {
+        let name = synth::DumpString::new(nm, Endian::Little);
+        dump = dump.add_unloaded_module(synth::UnloadedModule::new(Endian::Little, *base, *size as u32, &name, 0, 0)).add(name);
+    }
+    dump.finish()
+}
+
+/// the exception info `process_minidump` derives for an amd64 Windows access violation whose
+/// crashing instruction is `code`
+fn harvest(code: &[u8], regs: &[(&str, u64)]) -> Option<ExceptionInfo> {
+    let mut all: Vec<(String, u64)> = vec![("rip".into(), 0x40_0000), ("rsp".into(), 0x7000_0000)];
+    all.extend(regs.iter().map(|(k, v)| (k.to_string(), *v)));
+    let spec = DumpSpec {
+        os: "win".into(),
+        cpu: "amd64".into(),
+        exc: [0xc000_0005, 0, 2, 0, 0x1000, 0x40_0000],
+        regs: all,
+        code: code.to_vec(),
+        stack: vec![0; 16],
+        ..Default::default()
+    };
+    process_bytes(synth_dump(&spec)?)?.exception_info
+}
+
+/// processed exception infos whose first memory access has each `MemoryAccessType` (the enum
+/// cannot be named from outside the crate; values are copied out of these)
+struct Templates {
+    read: ExceptionInfo,
+    write: ExceptionInfo,
+    readwrite: ExceptionInfo,
+    underivable: ExceptionInfo,
+}
+
+fn first_access_is(e: &ExceptionInfo, debug_name: &str) -> bool {
+    e.memory_access_list
+        .as_ref()
+        .and_then(|l| l.accesses.first())
+        // Debug is derived: independent of the Display impl that `print_json` uses
+        .map_or(false, |a| format!("{:?}", a.access_type) == debug_name)
+}
+
+fn templates() -> Option<&'static Templates> {
+    static T: OnceLock<Option<Templates>> = OnceLock::new();
+    T.get_or_init(|| {
+        let rbx = [("rbx", 0x1000u64)];
+        let t = Templates {
+            read: harvest(&[0x48, 0x8b, 0x03], &rbx)?,        // mov rax, [rbx]
+            write: harvest(&[0x48, 0x89, 0x03], &rbx)?,       // mov [rbx], rax
+            readwrite: harvest(&[0x01, 0x03], &rbx)?,         // add [rbx], eax
+            underivable: harvest(&[0x31, 0x03], &rbx)?,       // xor [rbx], eax
+        };
+        let ok = first_access_is(&t.read, "Read")
+            && first_access_is(&t.write, "Write")
+            && first_access_is(&t.readwrite, "ReadWrite")
+            && first_access_is(&t.underivable, "Underivable")
+            && format!("{:?}", t.read.instruction_pointer_update).contains("NoUpdate");
+        if ok {
+            Some(t)
+        } else {
+            None
+        }
+    })
+    .as_ref()
+}
+
+fn ip_update_template(addr: u64) -> Option<ExceptionInfo> {
+    IPCACHE.with(|c| {
+        if let Some(v) = c.borrow().get(&addr) {
+            return v.clone();
+        }
+        let v = harvest(&[0xff, 0xd0], &[("rax", addr)]); // call rax
+        let v = v.filter(|e| format!("{:?}", e.instruction_pointer_update).contains(&format!("address: {addr},")));
+        c.borrow_mut().insert(addr, v.clone());
+        v
+    })
+}
+
+/// `json procx <os> <cpu> ( exc ) ( regs ) b<code> ( regions ) <data> <lsb> <limits> <maps> <thread name>
+///  ( modules ) ( unloaded ) b<stack>` → `process_minidump`
+fn build_procx(items: &[Sx]) -> Option<ProcessState> {
+    if items.len() != 16 {
+        return None;
+    }
+    let exc: Vec<u64> = items[3].list(|x| x.nat())?;
+    let th = items[15].as_list()?;
+    if th.len() != 3 {
+        return None;
+    }
+    let triple = |x: &Sx| {
+        let l = x.as_list()?;
+        Some((l.first()?.nat()?, l.get(1)?.nat()?, l.get(2)?.string()?))
+    };
+    let spec = DumpSpec {
+        os: items[1].atom()?.to_string(),
+        cpu: items[2].atom()?.to_string(),
+        exc: exc.try_into().ok()?,
+        regs: items[4].list(|r| {
+            let r = r.as_list()?;
+            Some((r.first()?.string()?, r.get(1)?.nat()?))
+        })?,
+        code: items[5].bytes()?,
+        regions: items[6].list(|r| {
+            let r = r.as_list()?;
+            Some((r.first()?.nat()?, r.get(1)?.nat()?, r.get(2)?.nat()? as u32))
+        })?,
+        data: items[7].opt(|d| {
+            let d = d.as_list()?;
+            Some((d.first()?.nat()?, d.get(1)?.bytes()?))
+        })?,
+        lsb: items[8].opt(|x| x.bytes())?,
+        limits: items[9].opt(|x| x.bytes())?,
+        maps: items[10].opt(|x| x.bytes())?,
+        thread_name: items[11].opt(|x| x.string())?,
+        modules: items[12].list(triple)?,
+        unloaded: items[13].list(triple)?,
+        stack: items[14].bytes()?,
+        before: th[0].nat()?,
+        after: th[1].nat()?,
+        dump_thread: th[2].opt(|x| x.nat())?,
+    };
+    process_bytes(synth_dump(&spec)?)
+}
 
 fn run(case: &str) -> Option<Run> {
     let rest = case.strip_prefix("json ")?;
-    let items = sx_parse(rest)?;
+    let items = strip_shape(sx_parse(rest)?);
     let ps = if is_proc_case(&items) {
         catch(|| build_proc(&items)).ok()??
+    } else if is_procx_case(&items) {
+        catch(|| build_procx(&items)).ok()??
     } else {
         catch(|| build(&items)).ok()??
     };
@@ -1321,7 +1881,9 @@ fn expected_out(r: &Run, orc_json: &Option<Value>) -> String {
         Ok(c) => {
             let mut out = format!("M:{}", hex(c));
             if let (true, Some(j)) = (conforms_predictable(&r.ps), orc_json) {
-                out.push_str(&format!(" C:{} U:proc_limits P:1", expected_conforms(j)));
+                // R:1 — the Lean redundancy predicate `Consistent` must hold on the real bytes;
+                // E: — enumeration values outside json-schema.md's lists, computed here from the real output
+                out.push_str(&format!(" C:{} R:1 U:proc_limits E:{} P:1", expected_conforms(j), undocumented_enums(j)));
             }
             out
         }
@@ -1330,6 +1892,46 @@ fn expected_out(r: &Run, orc_json: &Option<Value>) -> String {
 
 fn has_hostile(s: &str) -> bool {
     s.chars().any(|c| (c as u32) < 0x20 || c == '"' || c == '\\' || (c as u32) > 0xffff || c == '\u{fffd}')
+}
+
+/// which optional parts of `crash_info` a state carries
+fn crash_tags(ps: &ProcessState) -> Vec<String> {
+    let mut t = Vec::new();
+    let Some(e) = ps.exception_info.as_ref() else {
+        return vec!["exception:none".into()];
+    };
+    match &e.memory_access_list {
+        None => t.push("memory_accesses:none".into()),
+        Some(l) => {
+            t.push(format!("memory_accesses:{}", match l.iter().count() { 0 => "0", 1 => "1", 2 => "2", _ => "3+" }));
+            for a in l.iter() {
+                t.push(format!("access_type:{:?}", a.access_type));
+                if a.address_info.is_likely_guard_page {
+                    t.push("access:likely-guard-page".into());
+                }
+                if a.size.is_none() {
+                    t.push("access:size-unknown".into());
+                }
+            }
+        }
+    }
+    let u = format!("{:?}", e.instruction_pointer_update);
+    t.push(format!("ip_update:{}", if u.starts_with("None") { "none" } else if u.contains("NoUpdate") { "no-update" } else { "update" }));
+    t.push(format!("adjusted_address:{}", match &e.adjusted_address {
+        None => "none",
+        Some(AdjustedAddress::NonCanonical(_)) => "non-canonical",
+        Some(AdjustedAddress::NullPointerWithOffset(_)) => "null-pointer",
+    }));
+    for i in &e.inconsistencies {
+        t.push(format!("inconsistency:{}", incons_tag(i)));
+    }
+    t.push(format!("instruction:{}", if e.instruction_str.is_some() { "some" } else { "none" }));
+    if !e.possible_bit_flips.is_empty() {
+        t.push("bit-flips".into());
+    }
+    t.sort();
+    t.dedup();
+    t
 }
 
 fn tags_of(r: &Run) -> Vec<String> {
@@ -1362,9 +1964,19 @@ fn tags_of(r: &Run) -> Vec<String> {
     if names.into_iter().any(|s| has_hostile(s)) {
         t.push("hostile-names".into());
     }
-    if ps.exception_info.as_ref().map_or(false, |e| !e.possible_bit_flips.is_empty()) {
-        t.push("bit-flips".into());
+    t.extend(crash_tags(ps));
+    for th in &ps.threads {
+        for f in &th.frames {
+            if TRUST_UNDOC.contains(&trust_doc(&f.trust)) {
+                t.push(format!("undocumented-enum:trust={}", trust_doc(&f.trust)));
+            }
+        }
     }
+    if CPU_UNDOC.contains(&cpu_tag(&ps.system_info.cpu)) {
+        t.push(format!("undocumented-enum:cpu_arch={}", cpu_tag(&ps.system_info.cpu)));
+    }
+    t.sort();
+    t.dedup();
     if !wf(ps) {
         t.push("not-wf".into());
     }
@@ -1449,6 +2061,17 @@ const OSES: [&str; 8] = ["windows", "macos", "ios", "linux", "solaris", "android
 const CPUS: [&str; 10] = ["x86", "amd64", "ppc", "ppc64", "sparc", "arm", "arm64", "mips", "mips64", "unknown"];
 const TRUSTS: [&str; 7] = ["none", "scan", "cfi_scan", "frame_pointer", "cfi", "prewalked", "context"];
 const INCONS: [&str; 5] = ["intdiv", "priv", "noncanon", "accessallowed", "notfound"];
+
+const ACCESS_TYPES: [&str; 4] = ["read", "write", "readwrite", "underivable"];
+
+fn gen_access(rng: &mut Rng, bits64: bool) -> Sx {
+    L(vec![
+        n(gen_addr(rng, bits64)),
+        if rng.chance(1, 5) { none() } else { n(*rng.pick(&[1u64, 2, 4, 8, 16, 32, 64, 255])) },
+        b(rng.chance(1, 3)),
+        tag(pk(rng, &ACCESS_TYPES)),
+    ])
+}
 
 struct GenOpts {
     hostile: bool,
@@ -1595,6 +2218,7 @@ fn gen_state(rng: &mut Rng, g: &GenOpts) -> Vec<Sx> {
             n(if rng.chance(1, 8) { u32::MAX as u64 } else { rng.below(100000) }),
             ogs(rng),
             if rng.chance(1, 3) { gen_reason(rng) } else { none() },
+            tag(if nframes == 0 { pk(rng, &["ok", "missing_context", "missing_memory", "unsupported_cpu", "dump_thread_skipped"]) } else { "ok" }),
         ]));
     }
     let req = match rng.below(6) {
@@ -1624,14 +2248,26 @@ fn gen_state(rng: &mut Rng, g: &GenOpts) -> Vec<Sx> {
             1 => L(vec![tag("noncanonical"), n(gen_addr(rng, bits64))]),
             _ => L(vec![tag("nulloffset"), n(gen_addr(rng, bits64))]),
         };
+        let memacc = if rng.chance(1, 2) {
+            none()
+        } else {
+            L((0..rng.below(4)).map(|_| gen_access(rng, bits64)).collect())
+        };
+        let ipupd = match rng.below(6) {
+            0 => tag("noupdate"),
+            1 => L(vec![tag("update"), n(*rng.pick(&[0u64, 1, 0x1000, u32::MAX as u64, 1 << 47, u64::MAX]))]),
+            2 => L(vec![tag("update"), n(gen_addr(rng, bits64) & !0xfff)]),
+            _ => none(),
+        };
         L(vec![
             gen_reason(rng),
             n(gen_addr(rng, bits64)),
             adjusted,
             ogs(rng),
-            none(),
+            memacc,
             L(flips),
             L((0..rng.below(3)).map(|_| tag(pk(rng, &INCONS))).collect()),
+            ipupd,
         ])
     } else {
         none()
@@ -1753,6 +2389,199 @@ fn gen_state(rng: &mut Rng, g: &GenOpts) -> Vec<Sx> {
     ]
 }
 
+/// amd64 encodings by what `op_analysis` derives from them
+const INSNS: [(&str, &[u8]); 36] = [
+    ("mov rax,[rbx]", &[0x48, 0x8b, 0x03]),
+    ("mov eax,[rbx+0x10]", &[0x8b, 0x43, 0x10]),
+    ("cmp rax,[rbx]", &[0x48, 0x3b, 0x03]),
+    ("add eax,[rbx]", &[0x03, 0x03]),
+    ("push qword [rbx]", &[0xff, 0x33]),
+    ("call [rbx]", &[0xff, 0x13]),
+    ("jmp [rbx]", &[0xff, 0x23]),
+    ("mov [rbx],rax", &[0x48, 0x89, 0x03]),
+    ("mov [rbx],al", &[0x88, 0x03]),
+    ("pop qword [rbx]", &[0x8f, 0x03]),
+    ("movaps [rbx],xmm0", &[0x0f, 0x29, 0x03]),
+    ("movups xmm0,[rbx]", &[0x0f, 0x10, 0x03]),
+    ("add [rbx],eax", &[0x01, 0x03]),
+    ("sub [rbx],rax", &[0x48, 0x29, 0x03]),
+    ("inc dword [rbx]", &[0xff, 0x03]),
+    ("dec qword [rbx]", &[0x48, 0xff, 0x0b]),
+    ("add dword [rsp],eax", &[0x01, 0x04, 0x24]),
+    ("xor [rbx],eax", &[0x31, 0x03]),
+    ("and [rbx+rcx*4+8],eax", &[0x21, 0x44, 0x8b, 0x08]),
+    ("div qword [rbx]", &[0x48, 0xf7, 0x33]),
+    ("movsd", &[0xa5]),
+    ("nop", &[0x90]),
+    ("mov rax,rbx", &[0x48, 0x89, 0xd8]),
+    ("hlt", &[0xf4]),
+    ("div rcx", &[0x48, 0xf7, 0xf1]),
+    ("lea rax,[rbx]", &[0x48, 0x8d, 0x03]),
+    ("call rax", &[0xff, 0xd0]),
+    ("jmp rax", &[0xff, 0xe0]),
+    ("ret", &[0xc3]),
+    ("jz +5", &[0x74, 0x05]),
+    ("call rel32", &[0xe8, 0, 0, 0, 0]),
+    ("push rax", &[0x50]),
+    ("pop rax", &[0x58]),
+    ("mov rax,[rip+0x10]", &[0x48, 0x8b, 0x05, 0x10, 0, 0, 0]),
+    ("invalid in 64-bit mode", &[0x06]),
+    ("truncated", &[0x48]),
+];
+
+#[allow(clippy::too_many_arguments)]
+fn procx_case(
+    os: &str, cpu: &str, exc: [u64; 6], regs: &[(&str, u64)], code: &[u8], regions: &[(u64, u64, u32)],
+    data: Option<(u64, Vec<u8>)>, lsb: Option<&str>, limits: Option<&str>, maps: Option<&str>, tname: Option<&str>,
+    modules: &[(u64, u64, &str)], unloaded: &[(u64, u64, &str)], stack: &[u8], threads: (u64, u64, Option<u64>),
+) -> Vec<Sx> {
+    let ob = |t: Option<&str>| o(t, |t| bts(t.as_bytes()));
+    vec![
+        tag("procx"),
+        tag(os),
+        tag(cpu),
+        L(exc.iter().map(|v| n(*v)).collect()),
+        L(regs.iter().map(|(k, v)| L(vec![s(k), n(*v)])).collect()),
+        bts(code),
+        L(regions.iter().map(|(a, bb, c)| L(vec![n(*a), n(*bb), n(*c as u64)])).collect()),
+        o(data, |(a, d)| L(vec![n(a), bts(&d)])),
+        ob(lsb),
+        ob(limits),
+        ob(maps),
+        os_(tname),
+        L(modules.iter().map(|(a, bb, c)| L(vec![n(*a), n(*bb), s(c)])).collect()),
+        L(unloaded.iter().map(|(a, bb, c)| L(vec![n(*a), n(*bb), s(c)])).collect()),
+        bts(stack),
+        L(vec![n(threads.0), n(threads.1), on(threads.2)]),
+    ]
+}
+
+/// a crash dump for the processor path: crashing instruction, registers, exception record and
+/// memory map chosen so that every branch of the instruction analysis, the guard-page test and
+/// the consistency checks is reachable
+fn gen_procx(rng: &mut Rng) -> Vec<Sx> {
+    const DATA: u64 = 0x5000_0000; // readable+writable page; a no-access (guard) page sits below it
+    // the crashing instruction sits in the main module, or (1 in 6) where only unloaded modules were
+    let in_unloaded = rng.chance(1, 6);
+    #[allow(non_snake_case)]
+    let RIP: u64 = if in_unloaded { 0x6100_0900 } else { 0x40_0000 };
+    const RSP: u64 = 0x7000_0100;
+    let os = *rng.pick(&["win", "win", "linux", "mac", "android"]);
+    let cpu = if rng.chance(1, 10) { *rng.pick(&["x86", "arm64"]) } else { "amd64" };
+    let code: Vec<u8> = match rng.below(10) {
+        0 => (0..rng.range(1, 15)).map(|_| rng.below(256) as u8).collect(),
+        1 => vec![],
+        _ => rng.pick(&INSNS).1.to_vec(),
+    };
+    let rbx = match rng.below(10) {
+        0 => 0,
+        1 => DATA - 0x800,                 // inside the guard page
+        2 => 0x8000_0000_0000_0000 | rng.below(1 << 40), // non-canonical
+        3 => u64::MAX - rng.below(16),
+        4 => rng.below(0x1000),
+        5 => gen_addr(rng, true),
+        _ => DATA + rng.below(0xf00),
+    };
+    let rax = match rng.below(5) {
+        0 => 0,
+        1 => 0x0000_8000_0000_0000 + rng.below(1 << 20),
+        2 => gen_addr(rng, true),
+        _ => RIP + 0x100,
+    };
+    let rsp = match rng.below(8) {
+        0 => 0,
+        1 => 8,
+        2 => DATA - 0x10, // push/call write into the guard page
+        _ => RSP,
+    };
+    let rcx = rng.below(4) * rng.below(0x1000);
+    let crash_addr = match rng.below(8) {
+        0 => 0,
+        1 => u64::MAX,
+        2 => RIP,
+        3 => gen_addr(rng, true),
+        4 => rbx.wrapping_add(0x10),
+        5 => rsp.wrapping_sub(8),
+        _ => rbx,
+    };
+    let exc: [u64; 6] = match os {
+        "win" => match rng.below(8) {
+            0 => [0xc000_0094, 0, 0, 0, 0, RIP],                     // EXCEPTION_INT_DIVIDE_BY_ZERO
+            1 => [0xc000_0096, 0, 0, 0, 0, RIP],                     // EXCEPTION_PRIV_INSTRUCTION
+            2 => [0xc000_00fd, 0, 0, 0, 0, RIP],                     // EXCEPTION_STACK_OVERFLOW
+            3 => [0xc000_0005, 0, 2, 8, crash_addr, RIP],            // AV exec
+            4 => [0xc000_0005, 0, 2, 1, crash_addr, RIP],            // AV write
+            5 => [0xc000_0005, 0, 2, 0, u64::MAX, RIP],              // the shape Windows reports for a GPF
+            6 => [rng.below(1 << 32), rng.below(4), rng.below(16), rng.next(), rng.next(), rng.next()],
+            _ => [0xc000_0005, 0, 2, 0, crash_addr, RIP],            // AV read
+        },
+        "mac" => match rng.below(4) {
+            0 => [1, 13, 2, 13, 0, 0],                                // EXC_BAD_ACCESS / EXC_I386_GPFLT
+            1 => [3, 1, 1, 1, 0, RIP],                                // EXC_ARITHMETIC / EXC_I386_DIV
+            2 => [rng.below(12), rng.below(16), rng.below(3), rng.next(), rng.next(), rng.next()],
+            _ => [1, 1, 2, 1, crash_addr, crash_addr],                // KERN_INVALID_ADDRESS
+        },
+        _ => match rng.below(5) {
+            0 => [11, 0x80, 0, 0, 0, 0],                              // SIGSEGV / SI_KERNEL (GPF)
+            1 => [8, 1, 0, 0, 0, RIP],                                // SIGFPE / FPE_INTDIV
+            2 => [4, 5, 0, 0, 0, RIP],                                // SIGILL / ILL_PRVOPC
+            3 => [rng.below(40), rng.below(0x100), 0, 0, 0, rng.next()],
+            _ => [11, 1, 0, 0, 0, crash_addr],                        // SIGSEGV / SEGV_MAPERR
+        },
+    };
+    let regions: Vec<(u64, u64, u32)> = match rng.below(4) {
+        0 => vec![],
+        1 => vec![(DATA, 0x1000, 0x04)],
+        2 => vec![(DATA - 0x1000, 0x1000, 0x01), (DATA, 0x1000, 0x04), (RIP, 0x1000, 0x20), (0x7000_0000, 0x1000, 0x04)],
+        _ => vec![(DATA - 0x1000, 0x1000, 0x01), (DATA, 0x1000, *rng.pick(&[0x01u32, 0x02, 0x04, 0x10, 0x20, 0x40]))],
+    };
+    let target = *rng.pick(&[0u64, RIP + 0x40, 0x0000_9000_0000_0000, u64::MAX]);
+    let data = if rng.chance(2, 3) { Some((DATA, (0..0x100u64).flat_map(|_| target.to_le_bytes()).collect::<Vec<u8>>())) } else { None };
+    let linuxy = os == "linux" || os == "android";
+    let lsb = if linuxy && rng.chance(1, 2) {
+        Some(format!("DISTRIB_ID={}\nDISTRIB_RELEASE=22.04\nVERSION_CODENAME=\"{}\"\nPRETTY_NAME=x\n", gen_string(rng, false).replace(['\n', '='], ""), gen_string(rng, false).replace(['\n', '"'], "")))
+    } else {
+        None
+    };
+    let limits = if linuxy && rng.chance(1, 2) {
+        Some("Limit                     Soft Limit           Hard Limit           Units     \nMax cpu time              unlimited            unlimited            seconds   \nMax open files            1024                 4096                 files     \nMax stack size            8388608              unlimited            bytes     \n".to_string())
+    } else {
+        None
+    };
+    let maps = if linuxy && rng.chance(1, 2) {
+        Some((0..rng.below(5)).map(|i| format!("{:x}-{:x} r-xp 00000000 00:00 0 /lib/x{i}\n", 0x1000_0000 + i * 0x2000, 0x1000_1000 + i * 0x2000)).collect::<String>())
+    } else {
+        None
+    };
+    let tname = if rng.chance(1, 2) { Some(gen_string(rng, true).replace('\0', "")) } else { None };
+    let mod_name = match rng.below(3) {
+        0 => "C:\\Program Files\\app\\crash \"x\".exe".to_string(),
+        1 => "/usr/lib/libcrash.so".to_string(),
+        _ => gen_string(rng, true).replace('\0', ""),
+    };
+    let modules: Vec<(u64, u64, &str)> = if rng.chance(3, 4) { vec![(0x40_0000, 0x1000, &mod_name), (0x6000_0000, 0x10000, "second.dll")] } else { vec![] };
+    let unloaded: Vec<(u64, u64, &str)> = if in_unloaded || rng.chance(1, 3) { vec![(0x6100_0000, 0x1000, "gone.dll"), (0x6100_0800, 0x1000, "gone.dll"), (0x6100_0000, 0x2000, "also gone.dll")] } else { vec![] };
+    // stack words: return addresses into the modules / the unloaded modules / nowhere
+    let mut stack = Vec::new();
+    if rsp == RSP {
+        for _ in 0..rng.below(8) {
+            let w = *rng.pick(&[0u64, RIP + 0x20, 0x6000_0123, 0x6100_0900, 0x1234, u64::MAX]);
+            stack.extend_from_slice(&w.to_le_bytes());
+        }
+    }
+    let threads = match rng.below(4) {
+        0 => (rng.below(3), rng.below(3), Some(rng.below(4))),
+        1 => (rng.range(1, 3), rng.below(2), None),
+        _ => (0, 0, None),
+    };
+    procx_case(
+        os, cpu, exc,
+        &[("rip", RIP), ("rsp", rsp), ("rbx", rbx), ("rax", rax), ("rcx", rcx), ("rbp", if rng.chance(1, 2) { RSP + 0x10 } else { 0 })],
+        &code, &regions, data, lsb.as_deref(), limits.as_deref(), maps.as_deref(), tname.as_deref(), &modules, &unloaded, &stack,
+        threads,
+    )
+}
+
 // ---------------------------------------------------------------------------------- engine
 
 /// every character class the escaper distinguishes, in one string
@@ -1788,8 +2617,101 @@ fn directed(emit: &mut dyn FnMut(String)) {
                     L(vec![L(vec![]), n(78), none(), none()]),
                 ]);
                 st[4] = n(0);
-                emit(format!("json {}", sx_line(&st)));
+                emit(format!("json st {}", sx_line(&st)));
             }
+        }
+    }
+    // crash_info in full: every MemoryAccessType x guard flag x size known/unknown, every
+    // CrashInconsistency, both kinds of adjusted address, every shape of instruction-pointer update,
+    // on every CPU (pointer width)
+    for (k, cpu) in CPUS.iter().enumerate() {
+        let mut st = gen_state(&mut rng, &g);
+        if let L(sys) = &mut st[6] {
+            sys[3] = tag(cpu);
+        }
+        let bits64 = !matches!(*cpu, "x86" | "ppc" | "sparc" | "arm" | "mips");
+        let top = if bits64 { u64::MAX } else { u32::MAX as u64 };
+        let mut accesses = Vec::new();
+        for ty in ACCESS_TYPES {
+            for guard in [false, true] {
+                for size in [none(), n(8)] {
+                    accesses.push(L(vec![n(if guard { top } else { 0x1000 + accesses.len() as u64 }), size, b(guard), tag(ty)]));
+                }
+            }
+        }
+        let adjusted = match k % 3 {
+            0 => L(vec![tag("noncanonical"), n(top)]),
+            1 => L(vec![tag("nulloffset"), n(0x10)]),
+            _ => none(),
+        };
+        let ipupd = match k % 4 {
+            0 => tag("noupdate"),
+            1 => L(vec![tag("update"), n(0)]),
+            2 => L(vec![tag("update"), n(top)]),
+            _ => none(),
+        };
+        st[2] = L(vec![
+            L(vec![tag("r"), n(k as u64 % 9), n(11), n(1)]),
+            n(top),
+            adjusted,
+            s("add dword [rbx], eax"),
+            L(accesses),
+            L(vec![]),
+            L(INCONS.iter().map(|i| tag(i)).collect()),
+            ipupd,
+        ]);
+        emit(format!("json st {}", sx_line(&st)));
+        // each access type and each inconsistency alone
+        for (ty, inc) in ACCESS_TYPES.iter().zip(INCONS.iter()).chain(std::iter::once((&"read", &"notfound"))) {
+            let mut st2 = st.clone();
+            st2[2] = L(vec![
+                L(vec![tag("r"), n(4), n(0), n(0)]),
+                n(0x2000),
+                none(),
+                none(),
+                L(vec![L(vec![n(0x2000), n(4), b(false), tag(ty)])]),
+                L(vec![]),
+                L(vec![tag(inc)]),
+            ]);
+            emit(format!("json st {}", sx_line(&st2)));
+        }
+    }
+    // possible_bit_flips: every BitFlipDetails combination (4 flags x nearby_registers 0..=5) with
+    // the confidence the real `BitFlipDetails::confidence` computes, source register or none
+    for cpu in ["x86", "amd64", "unknown"] {
+        let mut st = gen_state(&mut rng, &g);
+        if let L(sys) = &mut st[6] {
+            sys[3] = tag(cpu);
+        }
+        let mut flips = Vec::new();
+        for bits in 0..16u32 {
+            for nearby in 0..=5u32 {
+                let d = BitFlipDetails {
+                    was_non_canonical: bits & 1 != 0,
+                    is_null: bits & 2 != 0,
+                    was_low: bits & 4 != 0,
+                    nearby_registers: nearby,
+                    poison_registers: bits & 8 != 0,
+                };
+                flips.push(L(vec![
+                    n(if d.is_null { 0 } else { 0x7000_0000 + (bits * 8 + nearby) as u64 }),
+                    if nearby % 2 == 0 { none() } else { s("rax") },
+                    b(d.was_non_canonical), b(d.is_null), b(d.was_low), n(nearby as u64), b(d.poison_registers),
+                    n(d.confidence().to_bits() as u64),
+                ]));
+            }
+        }
+        st[2] = L(vec![L(vec![tag("r"), n(6), n(0), n(0)]), n(0x7000_0001), none(), none(), none(), L(flips), L(vec![])]);
+        emit(format!("json st {}", sx_line(&st)));
+    }
+    // the processor path on the fixed instruction table: each encoding with a consistent Windows
+    // access violation (read and write) on amd64
+    for (_, code) in INSNS {
+        for write in [0u64, 1] {
+            emit(format!("json {}", sx_line(&procx_case("win", "amd64", [0xc000_0005, 0, 2, write, 0x5000_0010, 0x40_0000],
+                &[("rip", 0x40_0000), ("rsp", 0x7000_0100), ("rbx", 0x5000_0010), ("rcx", 2), ("rax", 0x6000_0000)],
+                code, &[(0x5000_0000, 0x1000, 0x04), (0x4fff_f000, 0x1000, 0x01)], Some((0x5000_0010, vec![0x78, 0x56, 0x34, 0x12, 0, 0, 0, 0])),
+                None, None, None, Some("crasher"), &[(0x40_0000, 0x1000, "C:\\app\\crash.exe")], &[], &[0u8; 32], (write, 1 - write, None)))));
         }
     }
     // crashing thread without frames / no crashing thread / empty state
@@ -1800,7 +2722,7 @@ fn directed(emit: &mut dyn FnMut(String)) {
             L(vec![L(vec![]), n(2), s(&all_escape_classes()), none()]),
         ]);
         st[4] = req;
-        emit(format!("json {}", sx_line(&st)));
+        emit(format!("json st {}", sx_line(&st)));
     }
 }
 
@@ -1809,20 +2731,34 @@ impl Engine for Json {
         "json"
     }
     fn rule(&self) -> String {
-        "ProcessState values constructed directly from a generated recipe (hostile names: quotes, controls, \
-         non-BMP, U+FFFD from lossy decoding; every CPU/pointer width incl. unknown x every context kind; threads \
-         without frames; crashing thread without frames or out of range; unloaded modules; bit flips; arbitrary \
-         soft_errors JSON; deliberate non-well-formed states that must panic in model and code alike). Compared: \
-         print_json(pretty=false) bytes = Lean printJson(alpha(state)) bytes; Lean parser+Conforms verdict on the \
-         real bytes; pretty output parses (in Lean and serde_json) to the same value. Oracle on the \
-         implementation alone: UTF-8, serde_json parse, counts, frame numbers, crashing-thread copy, offsets, \
-         modules mirror, hex widths, documented <u32>s. Non-trivial: the state has at least one thread with a \
-         frame or a module, and print_json returned."
+        "Two sources of ProcessState values. (1) `json st …`: constructed directly from a generated recipe (hostile \
+         names: quotes, controls, non-BMP, U+FFFD from lossy decoding; every CPU/pointer width incl. unknown x every \
+         context kind; threads without frames and with every CallStackInfo; crashing thread without frames or out \
+         of range; unloaded modules; crash_info with memory_accesses of every MemoryAccessType / guard flag / \
+         unknown size, instruction-pointer updates, both adjusted-address kinds, every CrashInconsistency, bit \
+         flips; arbitrary soft_errors JSON; deliberate non-well-formed states that must panic in model and code \
+         alike). (2) `json procx …` / `json proc …`: produced by process_minidump from synthesized dumps (crashing \
+         instruction from 36 amd64 encodings or random bytes, exception records of Windows/Linux/macOS shape, \
+         register values around mapped / guard / null / non-canonical addresses, memory-info regions, \
+         lsb-release/limits/maps streams, thread names, modules, overlapping unloaded modules, several threads \
+         with a Breakpad dump thread; MozSoftErrors texts). Compared: print_json(pretty=false) bytes = Lean \
+         printJson(alpha(state)) bytes; Lean parser + Conforms + Consistent verdicts on the real bytes; \
+         undocumented members and enumeration values; pretty output parses (in Lean and serde_json) to the same \
+         value. Oracle on the implementation alone: UTF-8, serde_json parse, counts, frame numbers, \
+         crashing-thread copy and registers (set, value, width), offsets, modules mirror, hex widths, documented \
+         <u32>s, every closed enumeration of json-schema.md against the documented strings, mirrors of \
+         memory_accesses / crash_inconsistencies / adjusted_address / possible_bit_flips / trust, guard-page flag \
+         only as true; on the processor path also: crashing thread = the thread the exception names, state inside \
+         WF. Non-trivial: the state has at least one thread with a frame or a module, and print_json returned."
             .into()
     }
     fn exhaustive_part(&self) -> Option<String> {
         Some("10 CPUs x 9 context kinds x {all, some} register validity as frame 0 of the crashing thread; every \
-              code point 0..=0xff and the UTF-8 length/surrogate boundaries in one name"
+              code point 0..=0xff and the UTF-8 length/surrogate boundaries in one name; per CPU all 16 \
+              MemoryAccessType x guard x size-known combinations, all 5 CrashInconsistency values (together and \
+              alone), adjusted address of each kind, every instruction-pointer-update shape; all 96 \
+              BitFlipDetails combinations with the real confidence(); the 36-entry instruction table x {read, \
+              write} access violation through process_minidump"
             .into())
     }
     fn generate(&self, tier: Tier, rng: &mut Rng, emit: &mut dyn FnMut(String)) {
@@ -1851,11 +2787,17 @@ impl Engine for Json {
             };
             emit(format!("json proc {}", sx_line(&[bts(v.to_string().as_bytes())])));
         }
+        for _ in 0..(if tier == Tier::Quick { 1500 } else { 12000 }) {
+            match catch(|| gen_procx(&mut *rng)) {
+                Ok(st) => emit(format!("json {}", sx_line(&st))),
+                Err(e) => eprintln!("generator panic (procx): {e}"),
+            }
+        }
         let count = if tier == Tier::Quick { 12000 } else { 60000 };
         for i in 0..count {
             let g = GenOpts { hostile: i % 4 != 0, wild: i % 5 == 0, defects: i % 7 == 0 };
             match catch(|| gen_state(&mut *rng, &g)) {
-                Ok(st) => emit(format!("json {}", sx_line(&st))),
+                Ok(st) => emit(format!("json st {}", sx_line(&st))),
                 Err(e) => eprintln!("generator panic at case {i}: {e}"),
             }
         }
@@ -1912,6 +2854,15 @@ impl Json {
             v.as_array().map_or(false, |a| a.iter().all(|x| x.is_object()))
         });
         let from_processor = case.starts_with("json proc ");
+        let from_procx = case.starts_with("json procx ");
+        if (from_procx || from_processor) && !wf(&r.ps) {
+            // `WF` is the theorems' hypothesis: a state the processor itself produced must satisfy it
+            res.oracle.push((
+                "processor-state-not-well-formed".into(),
+                format!("process_minidump returned a state outside WF (requesting thread {:?} of {} threads / module ranges / frame bases)",
+                    r.ps.requesting_thread, r.ps.threads.len()),
+            ));
+        }
         if from_processor && !soft_ok {
             let t: String = r.ps.soft_errors.as_ref().map(|v| v.to_string()).unwrap_or_default().chars().take(80).collect();
             res.oracle.push((
@@ -1923,6 +2874,44 @@ impl Json {
         res.nontrivial = r.compact.is_ok()
             && (r.ps.threads.iter().any(|t| !t.frames.is_empty()) || r.ps.modules.iter().next().is_some());
         res.tags = tags_of(&r);
+        if from_procx {
+            // the dump's exception record names thread id 1: whatever index the processor chose,
+            // the report's crashing thread must be that thread
+            if let Some(j) = &orc_json {
+                let idx = j["crash_info"]["crashing_thread"].as_u64();
+                let by_index = idx.and_then(|i| j["threads"].get(i as usize)).map(|t| t["thread_id"].clone());
+                let copy = j.get("crashing_thread").map(|t| t["thread_id"].clone());
+                if by_index.as_ref().map_or(false, |v| v.as_u64() != Some(1)) || copy.as_ref().map_or(false, |v| v.as_u64() != Some(1)) {
+                    res.oracle.push((
+                        "processor-crashing-thread-id".into(),
+                        format!("the exception record names thread 1; crash_info.crashing_thread = {idx:?} is thread {by_index:?}, crashing_thread.thread_id = {copy:?}"),
+                    ));
+                }
+                let skipped = r.ps.threads.iter().any(|t| t.thread_id == 1 && matches!(t.info, CallStackInfo::DumpThreadSkipped));
+                if r.ps.exception_info.is_some() && idx.is_none() && !skipped {
+                    res.oracle.push(("processor-crashing-thread-id".into(), "exception present, thread 1 in the list, but no crashing thread index".into()));
+                }
+            }
+            let ps = &r.ps;
+            for (name, on) in [
+                ("lsb_release", ps.linux_standard_base.is_some()),
+                ("proc_limits", ps.linux_proc_limits.is_some()),
+                ("linux_memory_map_count", ps.linux_memory_map_count.is_some()),
+                ("thread_name", ps.threads.iter().any(|t| t.thread_name.is_some())),
+                ("frame.module", ps.threads.iter().any(|t| t.frames.iter().any(|f| f.module.is_some()))),
+                ("frame.unloaded_modules", ps.threads.iter().any(|t| t.frames.iter().any(|f| !f.unloaded_modules.is_empty()))),
+                ("frame.unloaded_modules:several-offsets", ps.threads.iter().any(|t| t.frames.iter().any(|f| f.unloaded_modules.values().any(|o| o.len() > 1)))),
+                ("dump-thread-skipped", ps.threads.iter().any(|t| matches!(t.info, CallStackInfo::DumpThreadSkipped))),
+                ("crashing-thread-not-first", ps.requesting_thread.map_or(false, |i| i > 0)),
+            ] {
+                if on {
+                    res.tags.push(format!("processor-path/{name}"));
+                }
+            }
+            let extra: Vec<String> = crash_tags(&r.ps).into_iter().map(|t| format!("processor-path/{t}")).collect();
+            res.tags.extend(extra);
+            res.tags.push(format!("processor-path/frames:{}", r.ps.threads.first().map_or(0, |t| t.frames.len()).min(4)));
+        }
         if from_processor {
             res.tags.push(format!("processor-path:soft_errors-{}", if r.ps.soft_errors.is_some() { "kept" } else { "dropped" }));
         } else if !soft_ok {
@@ -1942,15 +2931,25 @@ impl Json {
         Some(req)
     }
     fn shrink_inner(&self, case: &str, still_fails: &dyn Fn(&str) -> bool) -> String {
-        let Some(mut items) = case.strip_prefix("json ").and_then(sx_parse) else {
+        let Some(items) = case.strip_prefix("json ").and_then(sx_parse) else {
             return case.to_string();
         };
+        let had_shape = matches!(items.first(), Some(A(a)) if a == "st");
+        let mut items = strip_shape(items);
         if is_proc_case(&items) {
             return case.to_string();
         }
-        let render = |items: &Vec<Sx>| format!("json {}", sx_line(items));
-        // generic structural shrinking: drop list elements, blank strings, zero numbers, None-ify
-        let mut budget = 400;
+        // (`procx` recipes are token trees too: the same structural shrinking applies)
+        let render = |items: &Vec<Sx>| format!("json {}{}", if had_shape { "st " } else { "" }, sx_line(items));
+        // generic structural shrinking: drop list elements, blank strings, zero numbers, None-ify;
+        // bounded per failure and per process (many failures of one class must not cost minutes)
+        static TOTAL: std::sync::atomic::AtomicUsize = std::sync::atomic::AtomicUsize::new(0);
+        let used = TOTAL.load(std::sync::atomic::Ordering::Relaxed);
+        let mut budget = if used > 8000 { 0 } else { 400 };
+        TOTAL.fetch_add(budget, std::sync::atomic::Ordering::Relaxed);
+        if budget == 0 {
+            return case.to_string();
+        }
         loop {
             let mut progress = false;
             let paths = collect_paths(&items);
